@@ -1,6 +1,6 @@
 //@ tu: libxcm/tp/tls/ctx_store.c libxcm/tp/tls/item.c
 //@ enforce: ctx_store_put
-//@ pre-unwind: list_find_entry.0:3 memcmp.0:33
+//@ pre-unwind: list_find_entry.0:3
 //@ props: C15 C18 C08
 //@ bounded: the cache holds 1..2 entries when the lock is acquired (use counts 1..INT_MAX-1, arbitrary distinct hashes, distinct contexts)
 //@ expect: postcondition>=8 canary=4
@@ -10,10 +10,10 @@ void harness(void)
     xv_ghost_havoc();
     xv_lk_ghost_havoc();
     xv_my_ctx = xv_ctx_any(); xv_my_refs = nondet_int(); xv_my_refs_after = nondet_int();   /* contract: refs >= 1, after == refs - 1 */
-    long frees0 = xv_ctxfree_calls;
     ctx_store_put(xv_my_ctx);
-    if (xv_acq.n == 1 && xv_ctxfree_calls == frees0) XV_CANARY("one entry, other users remain");
-    if (xv_acq.n == 1 && xv_pub.n == 0) XV_CANARY("one entry, last user: cache becomes empty");
-    if (xv_acq.n == 2 && xv_pub.n == 1 && xv_pub.e[0] == xv_acq.e[0]) XV_CANARY("two entries, second released");
-    if (xv_acq.n == 2 && xv_pub.n == 1 && xv_pub.e[0] == xv_acq.e[1]) XV_CANARY("two entries, first released");
+    /* canary conditions use only what the critical section FOUND, not the outcome that is being decided */
+    if (xv_acq.n == 1 && xv_acq.cnt[0] > 1) XV_CANARY("one entry, other users remain");
+    if (xv_acq.n == 1 && xv_acq.cnt[0] == 1) XV_CANARY("one entry, last user: cache becomes empty");
+    if (xv_acq.n == 2 && xv_acq.ctx[1] == xv_my_ctx && xv_acq.cnt[1] == 1) XV_CANARY("two entries, second released");
+    if (xv_acq.n == 2 && xv_acq.ctx[0] == xv_my_ctx && xv_acq.cnt[0] == 1) XV_CANARY("two entries, first released");
 }
